@@ -1198,7 +1198,7 @@ def _parse_function(mod, lines, i):
                 if nxt.startswith(']'):
                     break
             s = line.strip()
-        if s.startswith('call void @llvm.dbg.') or s.startswith('call void @llvm.lifetime') :
+        if re.match(r'call (addrspace\(\d+\) )?void @llvm\.(dbg\.|lifetime)', s):
             continue
         if fn.unsupported:
             continue
